@@ -12,4 +12,5 @@ import NakenVerif.Props.C14
 import NakenVerif.Props.C15
 import NakenVerif.Props.C05
 import NakenVerif.Props.C03
+import NakenVerif.Props.C13
 import NakenVerif.Props.C20
